@@ -278,6 +278,26 @@ class CallMixin:
             env = self.bind_params(fdef, con, self_val, args, kwargs, cmod, node)
         finally:
             self._bind_state = None
+        if getattr(con, "prelude", None) and not self.spec_mode and not getattr(self, "_in_prelude", False):
+            # interference point: the other thread may have taken any number of its steps before this shared access
+            pcon = self.reg.contracts[con.prelude]
+            self._in_prelude = True
+            try:
+                pouts = self.apply_contract(pcon, None, [], {}, st, node, None)
+            finally:
+                self._in_prelude = False
+            results = []
+            for ps, pr in pouts:
+                if isinstance(pr, Exc):
+                    results.append((ps, pr))
+                    continue
+                self._in_prelude = True       # the prelude is applied once per call
+                try:
+                    self._skip_prelude = True
+                    results.extend(self._apply_after_prelude(con, self_val, args, kwargs, ps, node, fm))
+                finally:
+                    self._in_prelude = False
+            return results
         if con.handler is not None:
             return con.handler(self, st, env, node)
         if getattr(con, "returns_expr", None) is not None:
@@ -365,6 +385,11 @@ class CallMixin:
             else:
                 results.append((s, Exc(exc_cls, f"from {con.qualname}", getattr(node, "lineno", 0))))
         return results
+
+    def _apply_after_prelude(self, con, self_val, args, kwargs, st, node, fm):
+        # _in_prelude is set by the caller, so the recursive call skips the prelude; nested calls made while evaluating this
+        # contract are spec evaluations only (no code runs), so suppressing preludes during it is harmless
+        return self.apply_contract(con, self_val, args, kwargs, st, node, fm)
 
     def cur_tags(self):
         return self.contract.tags if self.contract else ()
